@@ -44,6 +44,8 @@ ASSUMPTIONS = [
     'the class-level description of every accessible (datatype, default, value, export name, ...) is read from the real '
     'class object after class creation and given to the model as input: class creation/inheritance itself is C09',
     'datatype.default of the class-level datatype is supplied as data',
+    'two accessibles configured with the same export name (rejected by the code as configuration error, modelled) are '
+    'not judged by the direct oracle',
     'Limit parameters, `constant`, `datatype`, `update_unchanged`, `influences` in the configuration, io/attached modules '
     'and Pinata modules are not generated',
     'the poll thread body is run synchronously (frappy.modulebase.mkthread patched) up to the start callback; the '
@@ -247,6 +249,7 @@ ERR_PATTERNS = [
     ('badvalue', re.compile(r'^(\w+)\.(\w+): ')),
     ('mandatory', re.compile(r'^(?:ConfigError: )?(\w+) needs a value of type ')),
     ('modprop', re.compile(r'^(\w+): value .* does not match .*!$', re.S)),
+    ('dupexport', re.compile(r'^(\w+): export name .* is already used by ')),
     ('check', re.compile(r'^(\w+): ')),
 ]
 
@@ -512,7 +515,7 @@ def enc_err(e):
     if k == 'badvalue':
         return f'(ErrBadValue {gs(e[1])} {gs(e[2])})'
     name = {'needscfg': 'ErrNeedsCfg', 'needsdt': 'ErrNeedsDt', 'mandatory': 'ErrMandatory', 'modprop': 'ErrModProp',
-            'check': 'ErrCheck'}.get(k)
+            'check': 'ErrCheck', 'dupexport': 'ErrDupExport'}.get(k)
     if name is None:
         return f'(ErrCheck {gs("?unclassified?")})'
     return f'({name} {gs(e[1])})'
@@ -1199,6 +1202,12 @@ def analyse_module(case, m, origin):
             x['limits'] = (a, b)
             if a > b:
                 bad.append(f'inverted-limits:{n}')
+    # two accessibles with the same export name: the property does not say (the code now rejects the module)
+    exps = [expected_export(x['p'], x['cfg'], True) for x in params.values()
+            if not any(b.startswith('wrong-type:%s.export' % x['p']['name']) for b in bad)]
+    exps = [x for x in exps if isinstance(x, str)]
+    if len(set(exps)) != len(exps):
+        unsure = True
     return {'bad': bad, 'unsure': unsure, 'params': params, 'mexp': mexp, 'cd': cd, 'entries': ent}
 
 
@@ -1426,17 +1435,7 @@ def check_applied(case, obs, name, A, o):
 FINDING_CLASSIFIERS = {
     # configured value outside the (possibly overridden) limits of a parameter with a write method: cached, never written
     'out_of_range_not_written': lambda case, obs, f: f['class'] == 'write-count' and f['detail']['nwrites'] == 0
-    and f['detail']['outside_limits'] and f['detail']['mod_export'] is not False,
-    # module export=False: never initialised, so no poll thread and no start-up writes (same root cause as C15)
-    'unexported_module_not_written': lambda case, obs, f: f['class'] == 'write-count' and f['detail']['nwrites'] == 0
-    and f['detail']['mod_export'] is False,
-    # inverted limits configured on the element type of an array parameter
-    'inverted_limits_array_member': lambda case, obs, f: f['class'] == 'erroneous-accepted'
-    and f['detail']['kinds'] == ['inverted-limits']
-    and all(r.split(':')[1] in f['detail']['array_params'] for r in f['detail']['reasons']),
-    # export overridden in the configuration of a parameter/command: name map filled before the cfg is applied
-    'export_override_name_map_stale': lambda case, obs, f: f['class'] == 'name-map' and f['detail'].get('cfg_export')
-    and f['detail'].get('mod_export', True) is not False,
+    and f['detail']['outside_limits'],
 }
 
 
